@@ -11,10 +11,11 @@
  *                                     exactly those bytes and that length
  *  C01.xattr_value.malformed_refused  the text announces hex / base64 and
  *                                     violates the encoding (XV_MALFORMED)
- *                                     => decode returns NULL - the class
- *                                     "hex with an odd digit count" is named
- *                                     separately:
- *  C01.xattr_value.odd_hex_refused    "0x" + odd number of hex digits
+ *                                     => decode returns NULL - one class is
+ *                                     named separately:
+ *  C01.xattr_value.odd_hex_refused    "0x" + an odd number of characters (a
+ *                                     hex digit without partner, or a stray
+ *                                     byte behind complete pairs)
  *  (XV_UNSPEC texts: memory safety only)
  */
 #include <stdlib.h>
@@ -45,7 +46,7 @@ int canonicalize_name(char *filename)
 void harness(void)
 {
 	size_t size = LEN, want_len = 0, i;
-	int verdict, all_hex = 1;
+	int verdict;
 	sqfs_u8 *got;
 
 	verif_nd_bytes(g_text, LEN, "text");
@@ -78,12 +79,8 @@ void harness(void)
 			}
 		}
 	} else if (verdict == XV_MALFORMED) {
-		for (i = 2; i < LEN; ++i) {
-			if (xv_hexval((unsigned char)g_text[i]) < 0)
-				all_hex = 0;
-		}
-		if (LEN >= 2 && g_text[0] == '0' &&
-		    (g_text[1] == 'x' || g_text[1] == 'X') && all_hex) {
+		if (LEN >= 2 && LEN % 2 == 1 && g_text[0] == '0' &&
+		    (g_text[1] == 'x' || g_text[1] == 'X')) {
 			VERIF_ASSERT(got == NULL,
 				     "C01.xattr_value.odd_hex_refused");
 		} else {
